@@ -89,7 +89,7 @@ class Builder:
 
     def s_ifexp_join(self, target):
         x = self.name()
-        t1, t2 = self.draw(st.sampled_from([("int", "float"), ("float", "int"), ("str", "str"), ("int", "int")]))
+        t1, t2 = self.draw(st.sampled_from([("int", "float"), ("float", "int"), ("str", "str"), ("int", "int"), ("bool", "float"), ("float", "bool"), ("bool", "int"), ("int", "bool"), ("bool", "bool")]))
         self.out(target, [f"{x} = {self.val(t1)} if {self.cond()} else {self.val(t2)}", f"mon.write({x})"])
         return "ifexp_join"
 
